@@ -149,6 +149,9 @@ def build_family(tier, seed):
             arrs, _ = fam.thin(arrs, {1: None, 2: 500, 3: 400}[nd] if not thorough else {1: None, 2: 5000, 3: 4000}[nd], seed + nd)
             for a in arrs:
                 ol = [o for o in ops.gen_unary(a, "quick" if not thorough else "thorough") if o[0] not in ("qr", "svd", "svd_truncated")]
+                if nd == 2:
+                    # decompositions: the factors of x and of its twin differ by a gauge, their product does not
+                    ol += [("qr_product", ()), ("svd_product", ())]
                 nent = sum(int(np.prod([dict(cm)[c] for (cm, _), c in zip(a["indices"], s_)])) for s_ in a["present"])
                 ol += [("item", ()), ("get_sparsity", ())]
                 if nent <= 3:
